@@ -107,4 +107,46 @@ theorem answer_decides {P : Prog} {c0 c : Cfg} (h0 : Started c0) (hr : Reach P c
   obtain ⟨rest', rfl⟩ := Shape.catchPI_follow (pre := [.scrRet scr .input ret key, .classify scr]) (by simpa using hs)
   refine ⟨rest', rfl, _, _, by simp [step, hc]; rfl, by simp [step]; rfl, by simp [step]⟩
 
+theorem err_other {P : Prog} {c c' : Cfg} (h : StepTo P c c') (s : Nat)
+    (h1 : ∀ rest, c.code ≠ .countAndAct s :: rest) (h2 : ∀ args rest, c.code ≠ .getInput2 s args :: rest) :
+    (c'.A.scr s).err = (c.A.scr s).err := by
+  rw [err_after h s]
+  unfold Cfg.errAfter
+  split
+  · rename_i scr _ hc
+    split
+    · subst_vars; exact absurd hc (h1 _)
+    · rfl
+  · rename_i scr _ _ hc
+    split
+    · rename_i hs; obtain ⟨rfl, _⟩ := hs; exact absurd hc (h2 _ _)
+    · rfl
+  · rfl
+
+/-! ### the table -/
+
+theorem classifyRet_state_other (s : String) (key : Str) (h1 : s ≠ "PROCESSED") (h2 : s ≠ "REDRAW") (h3 : s ≠ "CLOSE") :
+    classifyRet (.state s) key = .error := by
+  unfold classifyRet; split <;> simp_all
+
+theorem classifyRet_key_other (k key : Str) (h1 : k ≠ ['r']) (h2 : k ≠ ['c']) (h3 : k ≠ ['q']) :
+    classifyRet (.key k) key = .error := by
+  simp [classifyRet, h1, h2, h3]
+
+theorem classifyRet_dflt (key : Str) : classifyRet .dflt key = classifyRet (.key key) key := by
+  simp [classifyRet]
+
+theorem classifyRet_inv (r : Ret) (key : Str) (hr : (∃ s, r = .state s) ∨ r = .none ∨ (∃ k, r = .key k) ∨ r = .dflt) :
+    (classifyRet r key = .noop ↔ r = .state "PROCESSED") ∧
+    (classifyRet r key = .redraw ↔ r = .state "REDRAW" ∨ r = .key ['r'] ∨ (r = .dflt ∧ key = ['r'])) ∧
+    (classifyRet r key = .close ↔ r = .state "CLOSE" ∨ r = .key ['c'] ∨ (r = .dflt ∧ key = ['c'])) ∧
+    (classifyRet r key = .quit ↔ r = .key ['q'] ∨ (r = .dflt ∧ key = ['q'])) := by
+  rcases hr with ⟨s, rfl⟩ | rfl | ⟨k, rfl⟩ | rfl
+  · unfold classifyRet; split <;> simp_all
+  · simp [classifyRet]
+  · simp only [classifyRet]
+    by_cases h1 : k = ['r'] <;> by_cases h2 : k = ['c'] <;> by_cases h3 : k = ['q'] <;> simp_all
+  · simp only [classifyRet]
+    by_cases h1 : key = ['r'] <;> by_cases h2 : key = ['c'] <;> by_cases h3 : key = ['q'] <;> simp_all
+
 end Simpleline
